@@ -21,8 +21,22 @@ def import_rules(prog: Program, ctx: Ctx, rule: str) -> None:
                    "same target in the import map, and never creates an alias that points at its own path")
     vi = prog.function("_griffe.agents.visitor.Visitor.visit_import")
     it = Interp(prog)
-    it.class_stubs["_griffe.models.Alias"] = lambda _i, name, target, **_k: Obj(None, {"name": name, "target_path": target}, label=f"alias {name}")
+    it.class_stubs["_griffe.models.Alias"] = lambda _i, name, target, **k_: Obj(None, {"name": name, "target_path": target, "runtime": k_.get("runtime", True)}, label=f"alias {name}")
     n_rows = 0
+    # an import under `if TYPE_CHECKING:` binds nothing at run time: the alias says so (wildcard imports of the module then leave it out)
+    for guarded in (False, True):
+        flags: list = []
+        current = Obj(prog.cls("_griffe.models.Module"), {"name": "m", "path": "m", "imports": {}}, label="m")
+        current.attrs["set_member"] = Native(lambda n, a, flags=flags: flags.append((n, a.attrs.get("runtime"))))
+        visitor = Obj(prog.cls("_griffe.agents.visitor.Visitor"), {"current": current, "type_guarded": guarded, "extensions": Obj(None, {"call": Native(lambda *a, **k: None)})}, label="visitor")
+        try:
+            it.call(vi, visitor, ast.parse("import decimal, heavy.sub as hs").body[0])
+            gotf: object = flags
+        except Raised as r:
+            gotf = f"raises {r.exc}"
+        n_rows += 1
+        ctx.ob(rule, f"import|runtime flag|type-guarded={guarded}", gotf == [("decimal", not guarded), ("hs", not guarded)],
+               f"`import decimal, heavy.sub as hs` {'under `if TYPE_CHECKING:`' if guarded else 'at run time'}: aliases and their runtime flags {gotf}", where(vi))
     for scope_path in ("m", "a"):
         for src, want in (("import a", [("a", "a")]), ("import a.b.c", [("a", "a")]), ("import a.b.c as x", [("x", "a.b.c")]), ("import a as y", [("y", "a")]),
                           ("import a.b, d.e as f", [("a", "a"), ("f", "d.e")]), ("import m.sub", [("m", "m")])):
